@@ -691,6 +691,32 @@ def utcform_cases(tier):
     return out
 
 
+def dstday_cases(tier):
+    """the day of the clock change is among the missing days: 35 / 36 / 37 of 365 days missing (three per month, two in February), so the
+    share of valid days sits within a day of the 90 % limit and an hour more or less must not tip it"""
+    import datetime as _dt
+
+    out = []
+    for zone, (dm, dd) in (("America/Chicago", (11, 7)), ("Europe/Berlin", (10, 31)), ("America/Chicago", (3, 14))):
+        base = []
+        for mon in range(1, 13):
+            ds_ = [5, 15] if mon == 2 else [5, 15, 25]
+            if mon == dm:
+                ds_[-1 if dd > 20 else 0] = dd
+            base += [(_dt.date(2021, mon, d) - _dt.date(2021, 1, 1)).days for d in ds_]
+        extra = [(_dt.date(2021, 7, 10) - _dt.date(2021, 1, 1)).days, (_dt.date(2021, 8, 10) - _dt.date(2021, 1, 1)).days]
+        for kind in ("daily", "hourly"):
+            for role in ROLES:
+                for entry, feed in entry_feed_pairs(kind, "quick"):
+                    for what in (["usage", "temp"] if role == "baseline" else ["temp"]):
+                        for k in (0, 1, 2):
+                            gaps = sorted(base + extra[:k])
+                            c = {"fam": "dstday", "cls": kind, "role": role, "fuel": "electric", "entry": entry, "feed": feed, "N": 365,
+                                 "m": len(gaps), "what": what, "zone": zone, "dst_day": f"{dm:02d}-{dd:02d}", "gaps": {what: gaps}}
+                            out.append(c)
+    return out
+
+
 def extracol_cases(tier):
     """frames that carry a column no criterion reads, with missing values in it: the verdict is that of the meter and the weather"""
     out = []
@@ -705,7 +731,8 @@ def extracol_cases(tier):
     return out
 
 
-FAMILIES = [("thresholds grid", grid_cases), ("unrelated column with missing values", extracol_cases), ("value defects", value_cases), ("DST zones", dst_cases),
+FAMILIES = [("thresholds grid", grid_cases), ("unrelated column with missing values", extracol_cases),
+            ("clock-change day among the missing days", dstday_cases), ("value defects", value_cases), ("DST zones", dst_cases),
             ("per-month coverage", month_cases), ("gaps as absent rows", absent_cases), ("no-midnight day at the edge of the data", midnight_edge_cases), ("empty columns", nodata_cases),
             ("temperature-only reporting", tonly_cases), ("billing NaN reads", bgap_cases),
             ("UTC spellings / datetime column", utcform_cases)]
